@@ -41,7 +41,7 @@ func init() {
 		Exec:      exec,
 		Required: []string{"histories", "multi-order-case", "late-inherited-method", "diamond-instance", "tree-instance", "chain-instance",
 			"nested-whoppers", "multi-before", "multi-after", "shadowed-primary", "shadowed-default", "inherited-default",
-			"inherited-accessor", "inherited-keyword", "inherited-inittable", "accessor-vs-component-method", "explicit-nil-init-keyword"},
+			"inherited-accessor", "inherited-keyword", "inherited-inittable", "accessor-vs-component-method", "explicit-nil-init-keyword", "message-vanilla-flavor-handles", "keyword-accepted-by-a-component"},
 		Bound:         bound,
 		Selftest:      selftest,
 		CaseDeadlineS: 60,
@@ -110,7 +110,21 @@ func enumerate(tier string, emit func(string)) {
 	enumAccessors(emit)
 	enumNilinit(emit)
 	emitM(allDags(2, 3, false), 0, 3, "all", allKinds)
+	// the same families on a message vanilla-flavor handles (its primary is last in every precedence list)
+	emitVanilla := func(dags [][][]int, kmin, kmax int) {
+		for _, d := range dags {
+			for _, ms := range methSubsets(len(d), kmax, allKinds) {
+				if kmin <= len(ms) {
+					emit("m|" + dagString(d) + "|" + methString(ms) + "|all|id")
+				}
+			}
+		}
+	}
+	emitVanilla(allDags(2, 3, false), 1, 3)
+	emitVanilla(allDags(3, 3, false), 1, 2)
 	if tier == engine.Thorough {
+		emitVanilla(allDags(3, 3, false), 3, 3)
+		emitVanilla(allDags(4, 3, false), 1, 2)
 		emitM(allDags(3, 3, false), 0, 4, "all", allKinds)
 		emitV(allDags(3, 3, false), tokens9)
 		emitM(allDags(4, 3, false), 0, 2, "all", allKinds)
@@ -198,7 +212,19 @@ func flavorSrc(names []string, comps [][]int, f int, o fopt) string {
 	return b.String()
 }
 
+// curMsg: the message of the method family. ":m" is handled by nobody but the methods of the case; ":id" is a message
+// vanilla-flavor (last in every precedence list) has a primary method for: a primary of any flavor of the case shadows
+// it, the daemons of the case run around whichever primary is first.
+var curMsg = ":m"
+
 func methSrc(names []string, m meth) string {
+	if curMsg != ":m" {
+		return strings.ReplaceAll(methSrcM(names, m), " :m)", " "+curMsg+")")
+	}
+	return methSrcM(names, m)
+}
+
+func methSrcM(names []string, m meth) string {
 	id := strconv.Itoa(m.f)
 	switch m.kind {
 	case 'p':
@@ -242,7 +268,7 @@ func combosOf(name string, names []string) string {
 	if f == nil {
 		return "<no flavor>"
 	}
-	m := f.GetMethod(":m")
+	m := f.GetMethod(curMsg)
 	if m == nil {
 		return "<no :m>"
 	}
@@ -327,7 +353,7 @@ func runMethodHistory(comps [][]int, ms []meth, order []form) (h history) {
 		o.prec = hierarchyOf(inst, names)
 		scope.Let(slip.Symbol("inst"), inst)
 		lisp.ResetTrace()
-		val, err := lisp.EvalIn(scope, "(send inst :m)")
+		val, err := lisp.EvalIn(scope, "(send inst "+curMsg+")")
 		o.trace = lisp.Trace()
 		if err != nil {
 			o.err = err.Class
@@ -336,6 +362,9 @@ func runMethodHistory(comps [][]int, ms []meth, order []form) (h history) {
 			}
 		} else {
 			o.ret = lisp.Show(val)
+			if curMsg != ":m" && !(strings.HasPrefix(o.ret, "r") && len(o.ret) == 2) {
+				o.ret = "<value-of-the-vanilla-method>" // an instance id: differs from instance to instance
+			}
 		}
 		o.combos = combosOf(names[f], names)
 		h.obs[f] = o
@@ -383,7 +412,12 @@ func diffKind(exp, got []string) string {
 var daemonNames = map[byte]string{'w': "whopper", 'b': "before", 'p': "primary", 'a': "after"}
 
 func execMethods(spec string, parts []string) (res engine.Result) {
-	if len(parts) != 4 {
+	curMsg = ":m"
+	if len(parts) == 5 && parts[4] == "id" {
+		curMsg = ":id"
+		defer func() { curMsg = ":m" }()
+		res.Hit("message-vanilla-flavor-handles")
+	} else if len(parts) != 4 {
 		res.Fail("harness:bad-spec", spec)
 		return
 	}
@@ -406,6 +440,9 @@ func execMethods(spec string, parts []string) (res engine.Result) {
 	inherits := false
 	reported := map[string]bool{}
 	fail := func(sig, detail string) {
+		if curMsg != ":m" {
+			sig += " msg=handled-by-vanilla"
+		}
 		if !reported[sig] {
 			reported[sig] = true
 			res.Fail(sig, detail)
